@@ -28,6 +28,28 @@ def canon(name):
                             trait = inner[j + 4:]
                             return _strip_generics(trait) + _strip_generics(rest)
                     break
+    # 'path::<impl Trait<..> for Type>::method' -> 'Trait::method'
+    i = n.find('<impl ')
+    if i >= 0:
+        depth = 0
+        for j in range(i, len(n)):
+            if n[j] == '<':
+                depth += 1
+            elif n[j] == '>':
+                depth -= 1
+                if depth == 0:
+                    inner = n[i + 6:j]
+                    rest = n[j + 1:]
+                    d = 0
+                    for k in range(len(inner)):
+                        c = inner[k]
+                        if c in '<[(':
+                            d += 1
+                        elif c in '>])':
+                            d -= 1
+                        elif d == 0 and inner.startswith(' for ', k):
+                            return _strip_generics(inner[:k]) + _strip_generics(rest)
+                    break
     return _strip_generics(n)
 
 
